@@ -1,5 +1,6 @@
 import Orx.KSRun
 import Orx.IW.Outs
+import Orx.IW.NoLoss
 /-! # C04 Order: the shared iterator is one linearizable sequential cursor -/
 namespace Orx.Props.C04
 open Orx Orx.KS
@@ -64,5 +65,17 @@ theorem iter_served_in_ticket_order (s : IW.Script) (hf : IW.Fused s) (ps : Nat 
     (t b n : Nat) (hcs : ((IW.run s σ (IW.init ps)).th t).pc.inCS = true)
     (htk : ((IW.run s σ (IW.init ps)).th t).pc.ticket = some (b, n)) : b = (IW.run s σ (IW.init ps)).Y :=
   (IW.inv_reach s hf ps hok σ hW).csY t b n hcs htk
+
+/-- **Wrapper, gap-free prefix**: in every reachable configuration, every filled position below the yielded
+counter has been handed out, and everything handed out lies below it: whenever no pull is in flight the
+delivered positions are exactly the filled prefix `{p < yielded | s p is an element}`. -/
+theorem iter_quiescent_prefix (s : IW.Script) (hf : IW.Fused s) (hnp : IW.NoPanic s) (ps : Nat → List IW.Req)
+    (hok : ∀ t, ∀ r ∈ ps t, IW.ReqOk r) (σ : List Nat) (hW : (IW.run s σ (IW.init ps)).R < W) (p : Nat) :
+    (p < (IW.run s σ (IW.init ps)).Y → IW.IsSome (s p) → IW.Delivered (IW.run s σ (IW.init ps)) p) ∧
+    (IW.Delivered (IW.run s σ (IW.init ps)) p → p < (IW.run s σ (IW.init ps)).Y) := by
+  have hi := IW.inv_init s ps hok
+  refine ⟨(IW.linv_run hf hnp σ hi (IW.linv_init s ps) hW).noLoss p, ?_⟩
+  rintro ⟨t, o, ho, hp⟩
+  exact (IW.oinv_run hf σ hi (IW.oinv_init s ps) hW).belowY t o ho p hp
 
 end Orx.Props.C04
